@@ -135,6 +135,20 @@ func filterColumns(row *ovsdb.Row, columns map[string]bool) *ovsdb.Row {
 	return &new
 }
 
+// requestFor returns the columns and select of the monitor request for a
+// table. A table that was not requested explicitly (only possible when no
+// table was) and a request without select both default to everything.
+func (m *monitor) requestFor(table string) ([]string, ovsdb.MonitorSelect) {
+	request := m.request[table]
+	if request == nil {
+		return nil, ovsdb.MonitorSelect{}
+	}
+	if request.Select == nil {
+		return request.Columns, ovsdb.MonitorSelect{}
+	}
+	return request.Columns, *request.Select
+}
+
 func (m *monitor) filter(update database.Update) ovsdb.TableUpdates {
 	// remove updates for tables that we aren't watching
 	tables := update.GetUpdatedTables()
@@ -148,18 +162,19 @@ func (m *monitor) filter(update database.Update) ovsdb.TableUpdates {
 		tu := ovsdb.TableUpdate{}
 		cols := make(map[string]bool)
 		cols["_uuid"] = true
-		for _, c := range m.request[table].Columns {
+		columns, sel := m.requestFor(table)
+		for _, c := range columns {
 			cols[c] = true
 		}
 		_ = update.ForEachRowUpdate(table, func(uuid string, ru2 ovsdb.RowUpdate2) error {
 			ru := &ovsdb.RowUpdate{}
 			ru.FromRowUpdate2(ru2)
 			switch {
-			case ru.Insert() && m.request[table].Select.Insert():
+			case ru.Insert() && sel.Insert():
 				fallthrough
-			case ru.Modify() && m.request[table].Select.Modify():
+			case ru.Modify() && sel.Modify():
 				fallthrough
-			case ru.Delete() && m.request[table].Select.Delete():
+			case ru.Delete() && sel.Delete():
 				if len(cols) == 0 {
 					return nil
 				}
@@ -187,16 +202,17 @@ func (m *monitor) filter2(update database.Update) ovsdb.TableUpdates2 {
 		tu2 := ovsdb.TableUpdate2{}
 		cols := make(map[string]bool)
 		cols["_uuid"] = true
-		for _, c := range m.request[table].Columns {
+		columns, sel := m.requestFor(table)
+		for _, c := range columns {
 			cols[c] = true
 		}
 		_ = update.ForEachRowUpdate(table, func(uuid string, ru2 ovsdb.RowUpdate2) error {
 			switch {
-			case ru2.Insert != nil && m.request[table].Select.Insert():
+			case ru2.Insert != nil && sel.Insert():
 				fallthrough
-			case ru2.Modify != nil && m.request[table].Select.Modify():
+			case ru2.Modify != nil && sel.Modify():
 				fallthrough
-			case ru2.Delete != nil && m.request[table].Select.Delete():
+			case ru2.Delete != nil && sel.Delete():
 				if len(cols) == 0 {
 					return nil
 				}
